@@ -192,6 +192,8 @@ class PathEval:
                     return v.rank
                 if e.attr == "shape":
                     return (v.n, "?") if v.rank == 2 else ("?",)
+                if e.attr == "size" and getattr(v, "w", None):
+                    return (v.n if v.rank == 2 else 1) * v.w
                 if e.attr == "T":
                     raise Undecided("transpose")
             raise Undecided(f"attribute {e.attr}")
@@ -307,7 +309,11 @@ class PathEval:
             return self.compat(rot, args[0], c, "rotation.apply(points)", "rot")
         if name in ("as_quat", "copy") and isinstance(f, ast.Attribute):
             v_ = self.ev(f.value, env)
-            return Arr(0, v_.rank, v_.rows) if isinstance(v_, Arr) else v_
+            if not isinstance(v_, Arr):
+                return v_
+            out_ = Arr(0, v_.rank, v_.rows)
+            out_.w = 4 if name == "as_quat" else getattr(v_, "w", None)       # quaternions have four components: `.size` is decidable
+            return out_
         if name == "inv" and isinstance(f, ast.Attribute):
             v_ = self.ev(f.value, env)
             if isinstance(v_, Arr):
@@ -322,7 +328,13 @@ class PathEval:
             return Arr(0, args[0].rank, args[0].rows) if isinstance(args[0], Arr) else args[0]
         if name == "check_format_input_orientation" and args:
             if kw.get("init_format") is True or (len(args) > 1 and args[1] is True):
-                return Arr(0, 2, args[0].rows) if isinstance(args[0], Arr) else Arr(1, 2, [("unit",)])      # quaternions in shape (-1, 4)
+                q_ = Arr(0, 2, args[0].rows) if isinstance(args[0], Arr) else Arr(1, 2, [("unit",)])      # quaternions in shape (-1, 4)
+                q_.w = 4
+                return q_
+            if isinstance(args[0], Arr):
+                q_ = Arr(0, args[0].rank, args[0].rows)
+                q_.w = 4                                      # the second element is the quaternion array of the rotation
+                return (args[0], q_)
             return (args[0], args[0])
         if name == "check_format_input_anchor" and args:
             return args[0]
